@@ -241,6 +241,12 @@ def scatter_and_material_derivative(ctx):
                   ctx.where(cm, cm.func('amat_x')))
     ctx.floor('C07.G1.material', 18)
     ctx.floor('C07.G1.scatter', 15)
+    gradient_callsite(ctx, pn)
+
+
+def gradient_callsite(ctx, pn, R='C07.G1.callsite'):
+    """Call site of the scatter kernel in Simulation.gradient (jtvec is
+    gradient with a supplied residual)."""
     # call site in Simulation.gradient
     sm = ctx.repo.mod(SIMS)
     g = [m for m in sm.methods('Simulation', 'gradient')
@@ -258,7 +264,7 @@ def scatter_and_material_derivative(ctx):
         bb = cm_[0][1]
         ok = has(f'{bb["_v_"]} = {bb["_g_"]}.grid.cell_volumes', g) and \
             has(f'{bb["_s_"]} = {bb["_g_"]}.grid.shape_cells', g)
-    ctx.check('C07.G1.callsite', 'gradient -> interp_edges_to_vol_averages',
+    ctx.check(R, 'gradient -> interp_edges_to_vol_averages',
               ok, f'arguments {kws} do not pair the field components with '
               'the gradient components and the cell volumes of the same '
               'grid', ctx.where(sm, cs[0]), sample={'keywords': kws})
@@ -282,7 +288,7 @@ def scatter_and_material_derivative(ctx):
             return [st_]
         inn = solve_forward(cfgg, ['INIT'], tr)
         states = set(inn[cfgg.node_of(call_st)])
-        ctx.check('C07.G1.callsite', 'gradient: scatter target is a fresh '
+        ctx.check(R, 'gradient: scatter target is a fresh '
                   'zero array per source-frequency pair', loop is not None
                   and states == {'ZERO'}, f'the accumulating scatter kernel '
                   f'receives `{acc}` in state {sorted(states)}: contributions '
@@ -293,7 +299,7 @@ def scatter_and_material_derivative(ctx):
     ok = len(ef) == 1 and len(bf) == 1 and \
         (ef[0][1]['_s_'], ef[0][1]['_f_']) == (bf[0][1]['_s_'],
                                                bf[0][1]['_f_'])
-    ctx.check('C07.G1.callsite', 'gradient pairs forward and back field of '
+    ctx.check(R, 'gradient pairs forward and back field of '
               'the same (source, frequency)', ok, 'forward and '
               'back-propagated field are not taken for the same task',
               ctx.where(sm, g))
@@ -301,7 +307,7 @@ def scatter_and_material_derivative(ctx):
         e, b_ = ef[0][1]['_e_'], bf[0][1]['_b_']
         gfd = find(f'_g_ = fields.Field(grid={e}.grid, data=np.real('
                    f'{b_}.field * {e}.smu0 * {e}.field))', g)
-        ctx.check('C07.G1.callsite', 'gradient integrand Re(lambda smu0 E)',
+        ctx.check(R, 'gradient integrand Re(lambda smu0 E)',
                   len(gfd) == 1 and kws.get(pn[0]) ==
                   gfd[0][1]['_g_'] + '.fx', 'the integrand is not the real '
                   'part of back-propagated field times s*mu0 times forward '
